@@ -292,13 +292,20 @@ class API:
                     """Update reservation.
                     """
                     allocation, cell = rsrc_id.rsplit('/', 1)
-                    _check_capacity(cell, allocation, rsrc)
                     admin_cell_alloc = _admin_cell_alloc()
 
                     cell_alloc = admin_cell_alloc.get(
                         [cell, allocation], dirty=True
                     )
                     _LOGGER.debug('Old reservation: %r', cell_alloc)
+
+                    # Check the reservation as it will be stored: traits
+                    # that the request does not name (or names as an empty
+                    # list, which does not clear them) stay on the record.
+                    new_alloc = dict(rsrc)
+                    if not new_alloc.get('traits'):
+                        new_alloc['traits'] = cell_alloc.get('traits', [])
+                    _check_capacity(cell, allocation, new_alloc)
 
                     cell_alloc.update(rsrc)
                     _LOGGER.debug('New reservation: %r', cell_alloc)
